@@ -422,9 +422,13 @@ class DisjunctionMaxMatcher(UnionMatcher):
         while a.is_active() and b.is_active() and max(aq, bq) <= minquality:
             if aq <= minquality:
                 skipped += a.skip_to_quality(minquality)
+                if not a.is_active():
+                    break
                 aq = a.block_quality()
             if bq <= minquality:
                 skipped += b.skip_to_quality(minquality)
+                if not b.is_active():
+                    break
                 bq = b.block_quality()
         return skipped
 
